@@ -35,6 +35,11 @@ class LocalView:
     def _p(self, rel: str) -> str:
         return os.path.join(self.root, rel.lstrip("/"))
 
+    @staticmethod
+    def canon(rel: str) -> str:
+        import posixpath
+        return posixpath.normpath(rel.lstrip("/"))
+
     def read(self, rel: str) -> bytes:
         with open(self._p(rel), "rb") as f:
             return f.read()
@@ -85,6 +90,8 @@ class S3View:
 
 
 class ImageView:
+    canon = staticmethod(LocalView.canon)    # images are taken of local tables
+
     def __init__(self, files: Dict[str, bytes]):
         self.files = files
 
@@ -313,7 +320,9 @@ class Reader:
             s.manifests.append(mp)
             for e in self.manifest(view, mp):
                 df = e["data_file"]
-                p = norm(df["file_path"])
+                # one FILE has one key: a file system resolves 'data//f', 'data/./f', 'data/sub/../f' to the same file (and
+                # the library's local backend accepts them); object-store keys are literal
+                p = getattr(view, "canon", norm)(df["file_path"])
                 if p in s.files:
                     continue
                 if rows:
